@@ -256,3 +256,31 @@ def selectMinCut (top zero : Int) (minK : Nat) (cuts : List Int) : Option Nat ×
   (r.2.1, r.2.2.2)
 
 end Opf
+
+/-! ### normalised cut (`UnsupervisedOPF._normalized_cut`), written once over its operations -/
+namespace Opf
+section Cut
+variable {α : Type} [Add α] [Div α] [LT α] [DecidableRel (α := α) (· < ·)]
+
+/-- per-cluster sums of `1/distance` over the arcs visited from every node (first `nplat[i] + k`
+entries of its list), split into arcs inside the cluster and arcs leaving it; arcs of distance 0 are
+skipped. Returns `(internal, external)` indexed by cluster id. -/
+def cutSums (zero one : α) (dist : Nat → Nat → α) (adj : Array (List Nat)) (nplat : Array Nat) (k : Nat)
+    (clu : Nat → Nat) (n nclusters : Nat) : Array α × Array α :=
+  (List.range n).foldl (fun (acc : Array α × Array α) i =>
+    ((adj.getD i []).take (nplat.getD i 0 + k)).foldl (fun (acc : Array α × Array α) j =>
+      let d := dist i j
+      if zero < d then
+        if clu i = clu j then (acc.1.setIfInBounds (clu i) (acc.1.getD (clu i) zero + one / d), acc.2)
+        else (acc.1, acc.2.setIfInBounds (clu i) (acc.2.getD (clu i) zero + one / d))
+      else acc) acc) (Array.replicate nclusters zero, Array.replicate nclusters zero)
+
+/-- `cut = Σ_l external[l] / (internal[l] + external[l])` over clusters with a positive total. -/
+def normalizedCutG (zero one : α) (dist : Nat → Nat → α) (adj : Array (List Nat)) (nplat : Array Nat) (k : Nat)
+    (clu : Nat → Nat) (n nclusters : Nat) : α :=
+  let s := cutSums zero one dist adj nplat k clu n nclusters
+  (List.range nclusters).foldl (fun cut l =>
+    let tot := s.1.getD l zero + s.2.getD l zero
+    if zero < tot then cut + s.2.getD l zero / tot else cut) zero
+end Cut
+end Opf
